@@ -295,6 +295,10 @@ def col_need(desc, j):
     else:
         if col[4]:
             need = max([need] + [text_measure(t)[1] for t in texts])
+            # a nested Table(width=k) cell measures k wide whatever it holds
+            k = desc[7][1] if len(desc) > 7 else 0
+            if k and j == 0 and desc[3]:
+                need = max(need, k)
         if col[1]:
             need = max(need, col[1][0])
     return need
